@@ -26,7 +26,9 @@ pub fn lookups_out(sm: &SourceMap, qs: &[Value]) -> Value {
     for q in qs {
         let (l, c) = (qnum(&q[0]), qnum(&q[1]));
         let r = guard(|| match sm.lookup_token(l, c) {
-            Some(t) => json!([{"tok": tok_json(&t), "sl": num(t.get_src_line()), "sc": num(t.get_src_col())}]),
+            // the original position through each accessor that reports it: get_src_line/get_src_col, get_src(), to_tuple()
+            Some(t) => json!([{"tok": tok_json(&t), "sl": num(t.get_src_line()), "sc": num(t.get_src_col()),
+                               "src": [num(t.get_src().0), num(t.get_src().1)], "tuple": [num(t.to_tuple().1), num(t.to_tuple().2)]}]),
             None => json!([]),
         });
         if r.get("k").is_some() {
